@@ -494,6 +494,47 @@ func mentionsGraphish(t types.Type) bool {
 	return false
 }
 
+// loadsBeforeCommits: h is not itself a write primitive, and every committing call inside it is dominated by a read of
+// the log inside it (or happens in a helper for which the same holds).
+func (c *Ctx) loadsBeforeCommits(h *ssa.Function, commit map[*ssa.Function]bool, d int) bool {
+	if h == nil || h.Blocks == nil || d > 2 || c.opaqueHelper(h) {
+		return false
+	}
+	for _, e := range c.F.Effects {
+		if e.Fn == h && commitEffectClass(e.Class) {
+			return false // a primitive
+		}
+	}
+	var loads, commits []ssa.CallInstruction
+	for _, call := range callsIn(h) {
+		cal := call.Common().StaticCallee()
+		if cal == nil {
+			continue
+		}
+		if cal == c.F.Anchors["loadGraph"] || cal == c.F.Anchors["readEvents"] {
+			loads = append(loads, call)
+		}
+		if commit[cal] {
+			commits = append(commits, call)
+		}
+	}
+	if len(commits) == 0 {
+		return false
+	}
+	for _, cm := range commits {
+		ok := false
+		for _, ld := range loads {
+			if instrDominates(ld, cm) {
+				ok = true
+			}
+		}
+		if !ok && !c.loadsBeforeCommits(cm.Common().StaticCallee(), commit, d+1) {
+			return false
+		}
+	}
+	return true
+}
+
 func ruleLK4(c *Ctx) {
 	commit := c.commitFuncs()
 	loaders := map[*ssa.Function]bool{}
@@ -551,6 +592,9 @@ func ruleLK4(c *Ctx) {
 					if instrDominates(ld, cm) {
 						dominated = true
 					}
+				}
+				if !dominated && c.loadsBeforeCommits(cm.Common().StaticCallee(), commit, 0) {
+					dominated = true // the body of the critical section lives in a helper that reads the log before it commits
 				}
 				if !dominated {
 					bad = fmt.Sprintf("commit %s at %s is not preceded, inside the critical section, by a read of the log", c.Name(cm.Common().StaticCallee()), c.Pos(cm.Pos()))
